@@ -74,3 +74,10 @@ claim('C02', 'Coq theorems (round trip by induction; unique / canonical encoding
       'varint_normalises (non-minimal accepted, canonical emitted, stable), flag_canonical. The oracle evaluates build(parse(x)) idempotence '
       'on the implementation for non-canonical inputs (non-minimal VarInts, all flag bytes, padding, trailing bytes in regions, duplicate '
       'labels, alternatives), generated constructs x mutated encodings, and 15 gallery formats; three recorded known findings.', 'DESIGN.md 6/C02')
+claim('C06', 'Coq theorems on the stream helpers and leaves + outcome-class correspondence + truncation sweep + k-th-operation fault injection',
+      'The stream helpers fail only with StreamError and never return fewer bytes than requested; integer leaves and VarInt reject every truncated '
+      'input with StreamError; ExplicitError escapes Select/GreedyRange/Peek; sizeof never leaks KeyError (all constructs). On the library: generated '
+      'constructs x random/boundary/huge-length/mutated inputs must give a value or a ConstructError (outcome class compared with the extracted '
+      'model); every strict prefix of canonical encodings of strict constructs must be StreamError; every k-th stream operation is made to raise / '
+      'return short / empty, seek and tell to fail, for parse and build. Three recorded known findings (non-terminating zero-width repetition, '
+      'swallowed stream failures, LazyStruct sibling KeyError).', 'DESIGN.md 6/C06')
